@@ -76,6 +76,7 @@ class Classifier:
                         self.appended.setdefault(c.func.value.id, []).append((c.args[0], n))
         self.local = {}
         self._busy = set()
+        self.param_cls = {}     # parameter -> class, when every call site passes a value of a known class (helpers)
 
     @staticmethod
     def _seq(c):
@@ -108,7 +109,7 @@ class Classifier:
             for d in self.rd[node.id].get(name, ()):
                 dn = self.cfg.nodes[d]
                 if dn is self.cfg.entry:
-                    out.append("raw" if name in self.data else "other")
+                    out.append(self.param_cls.get(name, "raw") if name in self.data else "other")
                 elif dn.kind == "stmt" and isinstance(dn.ast, ast.Assign):
                     tg = dn.ast.targets[0]
                     if isinstance(tg, ast.Name):
@@ -223,9 +224,34 @@ def rule_one_relation(ctx, roots, helpers, equal, N, rid="R8.1"):
     calls = calls_of(prog)
     r = ctx.rule(rid, "every equality-like operation between instance-derived and schema-derived data has both sides passed through the one normaliser", floor=6)
     funcs = list(roots) + [h for h in helpers if h is not N]
-    for f in sorted(funcs, key=lambda x: x.qual):
+    classifiers = {}
+
+    def classifier(f, depth=0):
+        """Classifier of f; a helper's parameters get the join of what its call sites (in the functions analysed) pass."""
+        if f in classifiers:
+            return classifiers[f]
         dps = [p for p, ro in calls.roles(f).items() if ro in ("instance", "value")] if f in roots else list(f.params)
         C = Classifier(prog, f, N, equal, dps)
+        classifiers[f] = C
+        if f not in roots and depth < 4:
+            seen_cls = {}
+            for g in funcs:
+                if g is f:
+                    continue
+                for n in walk_body(g):
+                    if isinstance(n, ast.Call) and any(t.kind == "func" and t.func is f for t in calls.callee(g, n)):
+                        Cg = classifier(g, depth + 1)
+                        for i, a in enumerate(n.args):
+                            if i < len(f.params):
+                                seen_cls.setdefault(f.params[i], []).append(Cg.cls(a))
+            for p, cs in seen_cls.items():
+                j = Classifier._join(cs)
+                if j in ("norm", "normseq", "emptyseq"):
+                    C.param_cls[p] = j
+        return C
+    for f in sorted(funcs, key=lambda x: x.qual):
+        dps = [p for p, ro in calls.roles(f).items() if ro in ("instance", "value")] if f in roots else list(f.params)
+        C = classifier(f)
         n_here = 0
         parents = {}
         for st in f.body:
@@ -280,10 +306,94 @@ def rule_one_relation(ctx, roots, helpers, equal, N, rid="R8.1"):
     return r
 
 
+def normaliser_eval(prog, N):
+    """The normaliser evaluated by sa/tokeval.py on true, false, scalars (which it may only hand back untouched) and containers
+    two levels deep.  -> {clause: None (holds) | message}, or None when outside the evaluated fragment."""
+    from ..tokeval import Ev, Tok, Undecided, PyRaise
+    ev = Ev(prog, fuel=20000)
+
+    def run(v):
+        return ev.call_func(N, [v], {})
+    out = {}
+    try:
+        A, B = run(True), run(False)
+        A2, B2 = run(True), run(False)
+        plain = (bool, int, float, str, type(None), list, dict, tuple)
+        if A is not A2 or B is not B2:
+            out["sentinels"] = "the stand-ins for true/false change from call to call: two normalised trues would not be equal"
+        elif A is B or isinstance(A, plain) or isinstance(B, plain) or A == B:
+            out["bool-cases"] = "true and false are not mapped to two distinct private stand-ins (true -> %r, false -> %r)" % (A, B)
+        else:
+            out["bool-cases"] = None
+        scalars = [0, 1, -7, 2 ** 60 + 1, 0.0, 1.0, 2.5, "", "s", "1", None, Tok("opaque", ("number",))]
+        for v in scalars:
+            try:
+                res = run(v)
+            except PyRaise as pr:
+                out["converts-value"] = "raises %s on %r" % (pr.name, v)
+                break
+            if res is not v:
+                out["converts-value"] = "%r comes back as %r: values other than true/false must be returned unchanged" % (v, res)
+                break
+        else:
+            out["converts-value"] = None
+        t = Tok("t", ("string",))
+        import itertools
+        out["shallow-list"] = out["shallow-dict"] = None
+        # every nesting of arrays and objects up to three levels around a boolean leaf, bare and with a scalar sibling at each level
+        for depth in (1, 2, 3):
+            for shape in itertools.product("LD", repeat=depth):
+                for sib in (False, True):
+                    for leaf, stand in ((True, A), (False, B)):
+                        def build(x):
+                            v = x
+                            for c in reversed(shape):
+                                if c == "L":
+                                    v = [v, 7, t] if sib else [v]
+                                else:
+                                    v = {"k": v, "n": 7, "s": t} if sib else {"k": v}
+                            return v
+                        got, want = run(build(leaf)), build(stand)
+                        if not _same(got, want):
+                            clause = "shallow-list" if shape[-1] == "L" or "D" not in shape else "shallow-dict"
+                            if out[clause] is None:
+                                out[clause] = "%s: %r is normalised to %r -- a boolean inside keeps comparing equal to 0/1" % (
+                                    "arrays are not rebuilt at every depth" if clause == "shallow-list" else "object values are not rebuilt at every depth",
+                                    build(leaf), got)
+    except Undecided:
+        return None
+    except PyRaise as pr:
+        out["raises"] = "raises %s" % pr.name
+    return out
+
+
+def _same(a, b):
+    if isinstance(b, list):
+        return isinstance(a, list) and len(a) == len(b) and all(_same(x, y) for x, y in zip(a, b))
+    if isinstance(b, dict):
+        return isinstance(a, dict) and set(a) == set(b) and all(_same(a[k], b[k]) for k in b)
+    if isinstance(b, (bool, int, float, str, type(None))):
+        return type(a) is type(b) and a == b
+    return a is b
+
+
 def rule_normaliser(ctx, N, rid2="R8.2", rid3="R8.3"):
     prog = ctx.prog
     r2 = ctx.rule(rid2, "the normaliser maps true and false (by identity) to two distinct private objects and leaves numbers alone", floor=3)
     r3 = ctx.rule(rid3, "the relation applies at every depth: the normaliser rebuilds arrays and object values recursively", floor=2)
+    sem = normaliser_eval(prog, N)
+    if sem is not None:
+        # decided by abstract evaluation of the function body (any control-flow shape); the shape rules below are the fallback
+        for clause, rule in (("bool-cases", r2), ("sentinels", r2), ("converts-value", r2), ("raises", r2), ("shallow-list", r3), ("shallow-dict", r3)):
+            if clause not in sem:
+                continue
+            if sem[clause] is None:
+                rule.ok(site(N) + " [%s]" % clause, "holds on the evaluated table (true/false, scalars returned untouched, containers two levels deep)")
+            else:
+                rule.fail("%s|%s" % (N.qual, clause), site(N), sem[clause])
+        # identity, not equality: `x == True` also catches the number 1 -- visible in the table as 1 coming back changed
+        r2.ok(site(N), "booleans recognised without catching 0/1 (1 and 0 come back unchanged)") if sem.get("converts-value") is None else None
+        return r2, r3
     cfg = cfg_of(N)
     p = N.params[0]
     sentinels = [q for q in N.params[1:]]
